@@ -2,6 +2,7 @@ package asm
 
 import (
 	"fmt"
+	"strings"
 
 	"github.com/llir/ll/ast"
 	asmenum "github.com/llir/llvm/asm/enum"
@@ -562,6 +563,8 @@ func (gen *generator) irFuncHeader(new *ir.Func, old ast.FuncHeader) error {
 	ps := old.Params()
 	if oldParams := ps.Params(); len(oldParams) > 0 {
 		new.Params = make([]*ir.Param, len(oldParams))
+		// Number of unnamed parameters seen so far; the ID of the next one.
+		nunnamed := int64(0)
 		for i, oldParam := range oldParams {
 			// Type.
 			typ, err := gen.irType(oldParam.Typ())
@@ -573,6 +576,14 @@ func (gen *generator) irFuncHeader(new *ir.Func, old ast.FuncHeader) error {
 			if n, ok := oldParam.Name(); ok {
 				ident := localIdent(n)
 				param.LocalIdent = ident
+				// The explicit local ID %0 is indistinguishable from an ID that is
+				// yet to be assigned once stored, thus validate it here.
+				if ident.IsUnnamed() && ident.LocalID == 0 && !strings.Contains(n.Text(), `"`) && nunnamed != 0 {
+					return errors.Errorf("invalid local ID in function %q, expected %s, got %s", new.Ident(), enc.LocalID(nunnamed), enc.LocalID(0))
+				}
+			}
+			if param.IsUnnamed() {
+				nunnamed++
 			}
 			// (optional) Parameter attributes.
 			if oldParamAttrs := oldParam.Attrs(); len(oldParamAttrs) > 0 {
